@@ -82,6 +82,13 @@ def main():
             # a construct outside an engine's fragment that no rule caught locally: fail closed as a violation
             rep.cannot("fragment", pid, e)
             return rep.finish("other", "aborted: construct outside the analysable fragment (fail closed)", "./check %s --tier %s" % (pid, tier))
+        except (KeyError, IndexError, TypeError, AttributeError) as e:
+            # a rule met a shape of the code it does not know (a missing arm, field or binding): the property cannot be
+            # established on this tree, which is reported as such rather than as a crash of the checker
+            tb = traceback.extract_tb(e.__traceback__)
+            where = "; ".join("%s:%d %s" % (os.path.basename(f.filename), f.lineno, f.name) for f in tb[-3:])
+            rep.cannot("fragment", pid, layout.Unsupported({}, "rule aborted on an unexpected code shape (%s: %s) in %s" % (type(e).__name__, e, where)))
+            return rep.finish("other", "aborted: code shape outside the analysable fragment (fail closed)", "./check %s --tier %s" % (pid, tier))
     except common.Broken as e:
         print("CHECKER-BROKEN %s: %s" % (pid, e))
         return common.EXIT_BROKEN
